@@ -133,6 +133,24 @@ def run_blocked(case) -> dict:
             with leaf_mgrs[0] as a:
                 with leaf_mgrs[1]:
                     pass
+        elif leaf_style == 10:
+            # blocked inside more nested blocks than any bound one might put on a frame's block list (the compiler allows 20)
+            leaf_mgrs.extend([M() for _ in range(13)])
+            m = leaf_mgrs
+            with m[0]:
+                with m[1] as a:
+                    with m[2]:
+                        with m[3]:
+                            with m[4] as b:
+                                with m[5]:
+                                    with m[6]:
+                                        with m[7]:
+                                            with m[8] as c:
+                                                with m[9]:
+                                                    with m[10]:
+                                                        with m[11]:
+                                                            with m[12]:
+                                                                lk.acquire(True, 20)
         elif leaf_style == 9:
             # blocked inside the exit of the INNER activation of a re-entrant manager that the same frame has entered twice
             class Re:
@@ -347,10 +365,10 @@ class C07(PropCheck):
         out = []
         for depth in range(0, 7 if tier == "thorough" else 5):
             for _ in range(2 if tier == "quick" else 6):
-                out.append({"k": "blocked", "depth": depth, "nest": [rng.randint(0, 3) for _ in range(depth + 1)], "leaf": len(out) % 10})
+                out.append({"k": "blocked", "depth": depth, "nest": [rng.randint(0, 3) for _ in range(depth + 1)], "leaf": len(out) % 11})
                 if len(out) % 4 == 1:
                     out.append(dict(out[-1], during_detection=True, nest=[max(1, x) for x in out[-1]["nest"]]))
-        for style in range(10):          # every way of being blocked, at least once whatever the seed
+        for style in range(11):          # every way of being blocked, at least once whatever the seed
             out.append({"k": "blocked", "depth": 1, "nest": [rng.randint(0, 2), rng.randint(0, 2)], "leaf": style})
         scheds: List[dict] = [{}]
         for r in range(0, 14):
